@@ -1,6 +1,7 @@
 package index
 
 import (
+	"bytes"
 	"context"
 	"errors"
 	"fmt"
@@ -175,6 +176,9 @@ func (this *Hnsw) Remove(id uuid.UUID) error {
 		for l := vertex.level; l >= 0; l-- {
 			vertex.edgeMutexes[l].RLock()
 			for neighbor, distance := range vertex.edges[l] {
+				if neighbor.isDeleted() {
+					continue
+				}
 				if distance < minDistance {
 					minDistance = distance
 					closestNeighbor = neighbor
@@ -185,6 +189,11 @@ func (this *Hnsw) Remove(id uuid.UUID) error {
 			if closestNeighbor != nil {
 				break
 			}
+		}
+		if closestNeighbor == nil {
+			// The removed entrypoint had no live neighbor left. Fall back to any
+			// stored vertex so that the remaining items stay searchable.
+			closestNeighbor = this.fallbackEntrypoint()
 		}
 		atomic.CompareAndSwapPointer(&this.entrypoint, currEntrypoint, unsafe.Pointer(closestNeighbor))
 	}
@@ -284,6 +293,22 @@ func (this *Hnsw) removeVertex(id uuid.UUID) (*hnswVertex, error) {
 	}
 
 	return nil, ItemNotFoundError
+}
+
+// Returns the stored vertex with the highest level (smallest id on ties)
+// or nil if the index is empty.
+func (this *Hnsw) fallbackEntrypoint() *hnswVertex {
+	var result *hnswVertex
+	for i := range this.vertices {
+		this.verticesMu[i].RLock()
+		for _, vertex := range this.vertices[i] {
+			if result == nil || vertex.level > result.level || (vertex.level == result.level && bytes.Compare(vertex.id.Bytes(), result.id.Bytes()) < 0) {
+				result = vertex
+			}
+		}
+		this.verticesMu[i].RUnlock()
+	}
+	return result
 }
 
 func (this *Hnsw) greedyClosestNeighbor(query math.Vector, entrypoint *hnswVertex, minDistance float32, level int) (*hnswVertex, float32) {
